@@ -178,10 +178,11 @@ func runRemote[R any](name string) RemoteCase {
 	rc := RemoteCase{Def: name, Desc: describeRemote("", reflect.TypeOf(zero)), Names: map[string]string{}}
 	var hmu sync.Mutex
 	var connects, disconnects []string
-	reg := rpc.NewRegistry[R, json.RawMessage](struct{}{}, &rpc.RegistryHooks{
-		OnClientConnect:    func(id string) { hmu.Lock(); connects = append(connects, id); hmu.Unlock() },
-		OnClientDisconnect: func(id string) { hmu.Lock(); disconnects = append(disconnects, id); hmu.Unlock() },
-	})
+	// the application creates the registry with an (as yet empty) hooks value and fills it in before linking
+	rhooks := &rpc.RegistryHooks{}
+	reg := rpc.NewRegistry[R, json.RawMessage](struct{}{}, rhooks)
+	rhooks.OnClientConnect = func(id string) { hmu.Lock(); connects = append(connects, id); hmu.Unlock() }
+	rhooks.OnClientDisconnect = func(id string) { hmu.Lock(); disconnects = append(disconnects, id); hmu.Unlock() }
 	hooks := func() (c, d []string) {
 		hmu.Lock()
 		defer hmu.Unlock()
@@ -237,18 +238,23 @@ func runRemote[R any](name string) RemoteCase {
 		ctx2, cancel2 := context.WithCancel(context.Background())
 		defer cancel2()
 		e2 := make(chan error, 1)
+		t0 := time.Now()
+		slow := &rpc.LinkHooks{OnClientConnect: func(id string) { time.Sleep(1200 * time.Millisecond) }}
 		go func() {
 			e2 <- reg.LinkMessage(ctx2,
 				func(b json.RawMessage) error { return nil }, func(b json.RawMessage) error { return nil },
 				func() (json.RawMessage, error) { <-ctx2.Done(); return nil, ctx2.Err() },
 				func() (json.RawMessage, error) { <-ctx2.Done(); return nil, ctx2.Err() },
 				func(v any) (json.RawMessage, error) { b, err := json.Marshal(v); return b, err },
-				func(d json.RawMessage, v any) error { return json.Unmarshal(d, v) }, nil)
+				func(d json.RawMessage, v any) error { return json.Unmarshal(d, v) }, slow)
 		}()
 		select {
 		case err := <-e2:
+			if d := time.Since(t0); d > 700*time.Millisecond {
+				return fmt.Sprintf("LATE (after %v, i.e. only after the link's slow connect notification had returned): %s", d.Round(100*time.Millisecond), errText(err))
+			}
 			return errText(err)
-		case <-time.After(time.Second):
+		case <-time.After(3 * time.Second):
 			return "NO-ERROR: the second link of the same registry stays up"
 		}
 	}
@@ -300,6 +306,9 @@ func runRemote[R any](name string) RemoteCase {
 	case <-time.After(20 * time.Millisecond):
 	}
 	probe("the link is up")
+	if c0, _ := hooks(); got && len(c0) == 0 {
+		rc.Enum = append(rc.Enum, "the link is up and its remote is enumerated, but the registry-wide connect notification (hooks filled in after NewRegistry, before linking) was never made")
+	}
 	if !got {
 		rc.LinkErr = "NO-REMOTE"
 		return rc
@@ -487,6 +496,27 @@ func (b lvPbase) Get(ctx context.Context, x int) (int, error)   { b.r.hit("base.
 func (s lvPS) Get(ctx context.Context, x int) (int, error)      { s.r.hit("Store.Get"); return x, nil }
 func (s lvPS) Put(ctx context.Context) error                    { s.r.hit("Store.Put"); return nil }
 
+// the peer holds a nested service through an interface-typed field
+type rdIface struct {
+	Greeter struct {
+		Greet fOK
+	}
+	Own fE
+}
+type lvGreeter interface {
+	Greet(ctx context.Context, x int) (int, error)
+}
+type lvGimpl struct{ r *pathRec }
+
+func (g lvGimpl) Greet(ctx context.Context, x int) (int, error) { g.r.hit("Greeter.Greet"); return x, nil }
+
+type lvI struct {
+	r       *pathRec
+	Greeter lvGreeter
+}
+
+func (l *lvI) Own(ctx context.Context) error { l.r.hit("Own"); return nil }
+
 func runRemoteE2E[R any](name string, local any, rec *pathRec) RemoteCase {
 	var zero R
 	rc := RemoteCase{Def: name, Desc: describeRemote("", reflect.TypeOf(zero)), E2E: map[string]string{}}
@@ -565,10 +595,11 @@ func hasUnusableFuncParam(t reflect.Type) bool {
 }
 
 func RunRemotes() []RemoteCase {
-	r1, r2, r3, r4, r5 := newPathRec(), newPathRec(), newPathRec(), newPathRec(), newPathRec()
+	r1, r2, r3, r4, r5, r6 := newPathRec(), newPathRec(), newPathRec(), newPathRec(), newPathRec(), newPathRec()
 	e2e := []RemoteCase{
 		runRemoteE2E[rdEmbedded]("embedded/e2e", &lvE{r: r3, RdBase: lvEB{r3, ""}, Tail: &lvET{r: r3, RdBase: lvEB{r3, "Tail."}}}, r3),
 		runRemoteE2E[rdValid1]("valid1/e2e", &lv1{r: r1, N: &lv1N{r: r1, D: lv1D{r1}}}, r1),
+		runRemoteE2E[rdIface]("iface/e2e", &lvI{r: r6, Greeter: lvGimpl{r6}}, r6),
 		runRemoteE2E[rdPromoted]("promoted/e2e", &lvP{r: r5, lvPbase: lvPbase{r: r5, Store: lvPS{r5}}}, r5),
 		runRemoteE2E[rdNames]("names/e2e", &lvN{r: r4, N: lvNN{r4}}, r4),
 		runRemoteE2E[rdValid2]("valid2/e2e", &lv2{r: r2, First: lv2F{r2}, Last: &lv2L{r: r2, In: &lv2I{r2}}}, r2),
